@@ -381,7 +381,7 @@ class Check(core.CheckBase):
         name = case['cls']
         cls = self.classes[name]
         if not attr.has(cls):
-            return []
+            return self.judge_defaults_plain(case, cls)
         defaulted = [field for field in attr.fields(cls) if field.init and field.default is not attr.NOTHING]
         if not defaulted:
             return []
@@ -426,6 +426,64 @@ class Check(core.CheckBase):
                     'shared-default|%s.%s' % (structural.owner_of_field(cls, field.name), field.name),
                     'editing %s.%s of one instance in place (%s) changed the same field of %s' % (
                         cls.__name__, field.name, witness,
+                        'another instance and of later ones' if changed_other and changed_later else
+                        'another instance' if changed_other else 'instances created later'), case))
+        return found
+
+    def judge_defaults_plain(self, case, cls):
+        """The same for a class that is not an attrs class: parameters of its own __init__ that have a default."""
+        import inspect  # pylint: disable=import-outside-toplevel
+        init = cls.__dict__.get('__init__')
+        if init is None:
+            return []
+        try:
+            parameters = list(inspect.signature(init).parameters.values())[1:]
+        except (TypeError, ValueError):
+            return []
+        parameters = [p for p in parameters if p.kind in (p.POSITIONAL_OR_KEYWORD, p.KEYWORD_ONLY)]
+        if not any(p.default is not p.empty for p in parameters):
+            return []
+        name = case['cls']
+        template = next((obj for obj, _, _ in self.bank.get(name, []) if type(obj) is cls), None)  # pylint: disable=unidiomatic-typecheck
+        required = [p for p in parameters if p.default is p.empty]
+        if required and template is None:
+            self.stats['defaults_no_template'] += 1
+            return []
+
+        def construct():
+            return cls(**{p.name: copy.deepcopy(getattr(template, p.name)) for p in required})
+        try:
+            first, second = construct(), construct()
+        except Exception:  # pylint: disable=broad-except
+            self.stats['defaults_not_constructible'] += 1
+            return []
+        self.stats['default_constructed_classes'] += 1
+        self.stats['default_constructed_plain_classes'] += 1
+        self.observe(('defaults', name), True, {'kind': 'defaults', 'cls': name,
+                                                'defaulted_fields': [p.name for p in parameters if p.default is not p.empty]})
+        found = []
+        for attribute in sorted(vars(first)):
+            if attribute not in vars(second):
+                continue
+            value_a, value_b = vars(first)[attribute], vars(second)[attribute]
+            if not set(structural.mutable_ids(value_a)) & set(structural.mutable_ids(value_b)):
+                continue
+            self.stats['shared_default_candidates'] += 1
+            pristine = self.visible_state(value_b)
+            witness = self._edit_in_place(value_a)
+            if witness is None:
+                continue
+            try:
+                third = construct()
+            except Exception:  # pylint: disable=broad-except
+                third = second
+            changed_other = self.visible_state(vars(second)[attribute]) != pristine
+            changed_later = self.visible_state(vars(third).get(attribute)) != pristine
+            if changed_other or changed_later:
+                found.append(self.violation(
+                    'shared-default|%s.%s' % (cls.__name__, attribute.lstrip('_')),
+                    'editing %s.%s of one instance in place (%s) changed the same attribute of %s' % (
+                        cls.__name__, attribute, witness,
                         'another instance and of later ones' if changed_other and changed_later else
                         'another instance' if changed_other else 'instances created later'), case))
         return found
